@@ -1,3 +1,4 @@
+import copy
 from typing import Dict, List, Optional, Union
 
 from autoarray.dataset.imaging.dataset import Imaging
@@ -210,6 +211,7 @@ def inversion_interferometer_from(
     try:
         from autoarray.inversion.inversion import inversion_util_secret
     except ImportError:
+        settings = copy.copy(settings)
         settings.use_w_tilde = False
 
     if any(
